@@ -220,6 +220,9 @@ func (s *GracefulServer) ListenAndServe() error {
 	if s.tlsConf != nil && s.tlsConf.NextProtos == nil {
 		s.tlsConf.NextProtos = []string{"http/1.1"}
 	}
+	if vl := verifListen(addr); vl != nil {
+		return s.Serve(vl)
+	}
 	var err error
 	var l net.Listener
 	if s.tlsConf != nil {
